@@ -19,6 +19,7 @@ INTERIOR = ("Mutex<", "RwLock<", "Cell<", "RefCell<", "Atomic", "OnceLock<", "On
 
 def run(ctx):
     k6_shared_table_keys(ctx)
+    k7_process_wide_slots(ctx)
     prog = ctx.prog
     bodies = [b for b in prog.prod_bodies() if "::_" not in b.defp]
     # ---------------- K0 inventory ---------------------------------------------------------------
@@ -281,3 +282,14 @@ def k6_shared_table_keys(ctx):
             parts = o.key.split("|")
             ctx.ob("K6", parts[1], parts[2], o.where, o.ok, o.detail)
     ctx.floor("K6", "binding-table key obligations (imported from C02 U2)", 3, n)
+
+
+def k7_process_wide_slots(ctx):
+    """K7: a static that is not a keyed table is ONE slot for every listener and flow of the process; what it holds must not depend on
+    who fills it first (a flow's result must be what it would have been had it run alone)"""
+    from .common import single_slot_static_fills
+    fills = single_slot_static_fills(ctx.prog)
+    for (it, b, t, reason) in fills:
+        ctx.ob("K7", b.defp, f"process-wide-slot-independent-of-first-caller:{last_seg(it['path'])}", loc(t["sp"]), reason is None,
+               reason or f"static {last_seg(it['path'])} is filled with a value that has no run-time input")
+    ctx.ob("K7", "workspace", "single-slot-statics-inventoried", "-", True, f"{len(fills)} fill site(s) of single-slot statics (keyed tables are K6's business)", nontrivial=False, ordinal=False)
